@@ -176,11 +176,12 @@ func (pc PtCase) Pt() oracle.Pt {
 
 // ReprCase is the JSON form of a representation.
 type ReprCase struct {
-	Kind string `json:"kind"`
-	L    string `json:"l"`
+	Kind string  `json:"kind"`
+	L    string  `json:"l"`
+	Src  *PtCase `json:"src,omitempty"` // natural kinds: the point the producing operation starts from
 }
 
-func ReprToCase(r gen.Repr) ReprCase { return ReprCase{r.Kind, fmt.Sprintf("%x", r.L)} }
+func ReprToCase(r gen.Repr) ReprCase { return ReprCase{Kind: r.Kind, L: fmt.Sprintf("%x", r.L)} }
 func (rc ReprCase) Repr() gen.Repr   { return gen.Repr{Kind: rc.Kind, L: BigH(rc.L)} }
 
 // ElemCase is a value in a representation.
@@ -190,4 +191,74 @@ type ElemCase struct {
 }
 
 func MkElemCase(pv gen.PV, r gen.Repr) ElemCase { return ElemCase{PtToCase(pv.P, pv.Tag), ReprToCase(r)} }
-func (ec ElemCase) Build() *secp256k1.Element  { return Elem(ec.P.Pt(), ec.R.Repr()) }
+
+// Build materialises the case. Kinds "affine"/"scaled"/"id-*" write raw limbs computed by the oracle; kinds "nat-*"
+// produce the value through the implementation's own operations from a source point, so that the element carries
+// the "natural" representation real use leaves behind (the value is then re-read with oracle arithmetic and must be
+// the intended one, otherwise the case is unusable and reported as a harness-level inconclusive).
+func (ec ElemCase) Build() *secp256k1.Element {
+	p := ec.P.Pt()
+	if len(ec.R.Kind) < 4 || ec.R.Kind[:4] != "nat-" {
+		return Elem(p, ec.R.Repr())
+	}
+
+	if ec.R.Src == nil {
+		panic("harness: natural representation without a source point")
+	}
+
+	src := ElemAffine(ec.R.Src.Pt())
+
+	var e *secp256k1.Element
+
+	switch ec.R.Kind {
+	case "nat-double":
+		e = src.Double()
+	case "nat-add":
+		e = src.Add(secp256k1.Base())
+	case "nat-sub":
+		e = src.Subtract(secp256k1.Base())
+	case "nat-mul":
+		e = src.Multiply(Scal(big.NewInt(3)))
+	case "nat-decode":
+		e = secp256k1.NewElement()
+		if err := e.Decode(oracle.EncC(p)); err != nil {
+			panic("harness: cannot build a decoded element: " + err.Error())
+		}
+	default:
+		panic("harness: unknown representation kind " + ec.R.Kind)
+	}
+
+	if v, ok := RawValue(e); !ok || !v.Equal(p) {
+		panic("harness: the implementation operation used to build a natural representation (" + ec.R.Kind + ") did not produce the intended value")
+	}
+
+	return e
+}
+
+// MkNatElemCase derives, from a source point, a value together with the implementation operation that produces it.
+func MkNatElemCase(src gen.PV, i int) ElemCase {
+	kind := NaturalKinds[i%len(NaturalKinds)]
+	q := src.P
+
+	var p oracle.Pt
+
+	switch kind {
+	case "nat-double":
+		p = oracle.Dbl(q)
+	case "nat-add":
+		p = oracle.Add(q, oracle.G())
+	case "nat-sub":
+		p = oracle.Sub(q, oracle.G())
+	case "nat-mul":
+		p = oracle.Add(oracle.Dbl(q), q)
+	default:
+		p = q
+	}
+
+	sc := PtToCase(q, src.Tag)
+
+	return ElemCase{P: PtToCase(p, kind+"("+src.Tag+")"), R: ReprCase{Kind: kind, L: "1", Src: &sc}}
+}
+
+// NaturalKinds lists the representation kinds produced through implementation operations.
+var NaturalKinds = []string{"nat-double", "nat-add", "nat-sub", "nat-mul", "nat-decode"}
